@@ -1,7 +1,10 @@
+pub mod accept;
 pub mod country;
+pub mod fields;
 
 pub fn self_test() -> Result<(), String> {
     crate::frames_self_test()?;
     country::self_test()?;
+    fields::self_test()?;
     Ok(())
 }
